@@ -1,13 +1,15 @@
 (* M9 proofs: the reference typestate machine emits exactly the RFC rendering of what was asked for;
    the rendering is derivable from the RFC grammar and is read back by an independent reader. *)
-From TI Require Import Bytes Builders DecFacts Machine.
+From TI Require Import Bytes Builders BuildersProofs DecFacts Machine.
 From Coq Require Import Lia.
 Local Open Scope N_scope.
 Local Open Scope list_scope.
 
 Definition fstate_b (uid : bool) (s : fstate) : bstate := ("FetchCommand"%string, state_name s, render_state uid s).
 
-Ltac norm_app := repeat rewrite <- app_assoc; cbn [app].
+Ltac norm_app := repeat rewrite <- app_assoc; cbn [app]; repeat (progress (repeat rewrite <- app_assoc; cbn [app])).
+(* `byte` is a transparent name for N; rewriting must not be blocked by which of the two an implicit argument shows *)
+Ltac rw H := let H' := fresh in pose proof H as H'; change byte with N in H'; change byte with N; rewrite H'; clear H'.
 
 Lemma render_more_snoc l i : render_more (l ++ [i]) = render_more l ++ [44] ++ render_item i.
 Proof.
@@ -170,4 +172,332 @@ Proof.
   destruct uid; cbn [verb].
   - change (bs "UID FETCH ") with (bs "UID " ++ bs "FETCH "). rewrite <- app_assoc. apply uf_uid, Hc.
   - apply uf_plain, Hc.
+Qed.
+
+(* ---------------------------------------------------------------- the independent reader reads the request back *)
+Definition nodigit_head (r : list byte) : Prop := match r with [] => True | c :: _ => is_digit c = false end.
+
+Lemma span_digits_app ds r : forallb is_digit ds = true -> nodigit_head r -> span_digits (ds ++ r) = (ds, r).
+Proof.
+  induction ds as [|d ds IH]; intros Hd Hr.
+  - cbn [app]. destruct r as [|c r]; [reflexivity|]. cbn [span_digits]. cbn in Hr. rewrite Hr. reflexivity.
+  - cbn [forallb] in Hd. apply andb_true_iff in Hd. destruct Hd as [Hd Hds].
+    cbn [app span_digits]. rewrite Hd, (IH Hds Hr). reflexivity.
+Qed.
+
+Lemma read_number_to_dec n r : nodigit_head r -> read_number (to_dec n ++ r) = Some (n, r).
+Proof.
+  intro Hr. unfold read_number. rewrite (span_digits_app _ _ (to_dec_digits n) Hr).
+  destruct (to_dec_nonempty n) as (d & ds & E & _ & _). rewrite <- (dec_to_dec n) at 2. rewrite E. reflexivity.
+Qed.
+
+Definition item_end (r : list byte) : Prop := match r with [] => True | c :: _ => is_digit c = false /\ c <> 58 end.
+
+Lemma item_end_nodigit r : item_end r -> nodigit_head r.
+Proof. destruct r; [trivial|]. intros [H _]. exact H. Qed.
+
+Lemma is_digit_false_of c : is_digit c = true -> c <> 58 /\ c <> 42 /\ c <> 44 /\ c <> 32 /\ c <> 41.
+Proof.
+  unfold is_digit. intro H. apply andb_true_iff in H. destruct H as [A B]. apply N.leb_le in A, B. repeat split; lia.
+Qed.
+
+Lemma read_item_render i r : item_end r -> read_item (render_item i ++ r) = Some (i, r).
+Proof.
+  intro Hr. pose proof (item_end_nodigit r Hr) as Hn.
+  destruct i as [n | a b | a]; cbn [render_item]; unfold read_item.
+  - rewrite (read_number_to_dec n r Hn).
+    destruct r as [|c r]; [reflexivity|]. destruct Hr as [_ Hc].
+    apply N.eqb_neq in Hc. rewrite Hc. reflexivity.
+  - norm_app. rewrite read_number_to_dec by reflexivity.
+    rewrite N.eqb_refl.
+    destruct (to_dec_nonempty b) as (d & ds & E & Hd & Hds).
+    destruct (is_digit_false_of d Hd) as (_ & Hd42 & _).
+    assert (Hread : read_number (to_dec b ++ r) = Some (b, r)) by (apply read_number_to_dec; exact Hn).
+    rewrite E in *. cbn [app] in *. apply N.eqb_neq in Hd42. rewrite Hd42.
+    match goal with |- match ?x with _ => _ end = _ => replace x with (Some (b, r)) by (symmetry; exact Hread) end. reflexivity.
+  - norm_app. rewrite read_number_to_dec by reflexivity. reflexivity.
+Qed.
+
+Definition more_end (r : list byte) : Prop := match r with [] => True | c :: _ => is_digit c = false /\ c <> 58 /\ c <> 44 end.
+
+Lemma render_more_head more r : more_end r -> item_end (render_more more ++ r).
+Proof.
+  intro H. destruct more as [|i more]; cbn [render_more app].
+  - destruct r as [|c r]; [exact I|]. destruct H as (A & B & _). split; assumption.
+  - split; [reflexivity | discriminate].
+Qed.
+
+Lemma read_more_render : forall more fuel r, more_end r -> (List.length more < fuel)%nat ->
+  read_more fuel (render_more more ++ r) = Some (more, r).
+Proof.
+  induction more as [|i more IH]; intros fuel r Hr Hf; (destruct fuel as [|f]; [inversion Hf|]).
+  - cbn [render_more app read_more]. destruct r as [|c r]; [reflexivity|].
+    destruct Hr as (_ & _ & Hc). apply N.eqb_neq in Hc. rewrite Hc. reflexivity.
+  - cbn [render_more]. norm_app. cbn [read_more]. rewrite N.eqb_refl.
+    rewrite (read_item_render i (render_more more ++ r) (render_more_head more r Hr)).
+    rewrite (IH f r Hr); [reflexivity | cbn [List.length] in Hf; lia].
+Qed.
+
+Lemma render_more_length more : (List.length more <= List.length (render_more more))%nat.
+Proof.
+  induction more as [|i more IH]; [apply le_n|]. cbn [render_more List.length app].
+  rewrite app_length. lia.
+Qed.
+
+(* keywords *)
+Definition word_end (r : list byte) : Prop := match r with [] => True | c :: _ => c = 32 \/ c = 41 end.
+Definition no_sep (w : list byte) : bool := forallb (fun b => negb ((b =? 32) || (b =? 41))) w.
+
+Lemma span_word_app w r : no_sep w = true -> word_end r -> span_word (w ++ r) = (w, r).
+Proof.
+  induction w as [|b w IH]; intros Hw Hr.
+  - cbn [app]. destruct r as [|c r]; [reflexivity|]. cbn [span_word].
+    destruct Hr as [-> | ->]; reflexivity.
+  - cbn [no_sep forallb] in Hw. apply andb_true_iff in Hw. destruct Hw as [Hb Hw].
+    cbn [app span_word]. apply negb_true_iff in Hb. rewrite Hb, (IH Hw Hr). reflexivity.
+Qed.
+
+Lemma table_facts t : 
+  forallb (fun ks => no_sep (bs (snd ks)) && match name_of_kw t (bs (snd ks)) with Some k => String.eqb k (fst ks) | None => false end) t = true ->
+  forall a s, In (a, s) t -> no_sep (bs s) = true /\ name_of_kw t (bs s) = Some a.
+Proof.
+  intros H a s Hin. rewrite forallb_forall in H. specialize (H (a, s) Hin). cbn [fst snd] in H.
+  apply andb_true_iff in H. destruct H as [A B]. split; [exact A|].
+  destruct (name_of_kw t (bs s)) as [k|]; [|discriminate]. apply String.eqb_eq in B. subst k. reflexivity.
+Qed.
+
+Lemma attr_table_facts : forall a s, In (a, s) attr_table -> no_sep (bs s) = true /\ name_of_kw attr_table (bs s) = Some a.
+Proof. apply table_facts. vm_compute. reflexivity. Qed.
+Lemma macro_table_facts : forall a s, In (a, s) macro_table -> no_sep (bs s) = true /\ name_of_kw macro_table (bs s) = Some a.
+Proof. apply table_facts. vm_compute. reflexivity. Qed.
+
+Lemma read_kw_attr a r : known "Attribute" a = true -> word_end r ->
+  read_kw "Attribute" (kw_of "Attribute" a ++ r) = Some (a, r).
+Proof.
+  unfold known, kw_of. destruct (kw_lookup ref_kw "Attribute" a) as [s|] eqn:E; [|discriminate]. intros _ Hr.
+  destruct (attr_table_facts a s (lookup_attr a s E)) as [Hs Hn].
+  unfold read_kw. rewrite (span_word_app _ _ Hs Hr).
+  change (assoc "Attribute"%string ref_kw) with (Some attr_table). cbv iota beta. rewrite Hn. reflexivity.
+Qed.
+Lemma read_kw_macro a r : known "AttrMacro" a = true -> word_end r ->
+  read_kw "AttrMacro" (kw_of "AttrMacro" a ++ r) = Some (a, r).
+Proof.
+  unfold known, kw_of. destruct (kw_lookup ref_kw "AttrMacro" a) as [s|] eqn:E; [|discriminate]. intros _ Hr.
+  destruct (macro_table_facts a s (lookup_macro a s E)) as [Hs Hn].
+  unfold read_kw. rewrite (span_word_app _ _ Hs Hr).
+  change (assoc "AttrMacro"%string ref_kw) with (Some macro_table). cbv iota beta. rewrite Hn. reflexivity.
+Qed.
+
+Lemma read_attrs_render : forall more fuel r, forallb (known "Attribute") more = true -> (List.length more < fuel)%nat ->
+  read_attrs fuel (render_attrs more ++ [41] ++ r) = Some (more, r).
+Proof.
+  induction more as [|a more IH]; intros fuel r Hk Hf; (destruct fuel as [|f]; [inversion Hf|]).
+  - reflexivity.
+  - cbn [forallb] in Hk. apply andb_true_iff in Hk. destruct Hk as [Ha Hk].
+    cbn [render_attrs]. norm_app. cbn [read_attrs]. rewrite N.eqb_refl.
+    rewrite (read_kw_attr a (render_attrs more ++ 41 :: r) Ha).
+    + change (41 :: r) with ([41] ++ r). rewrite (IH f r Hk); [reflexivity | cbn [List.length] in Hf; lia].
+    + destruct more; cbn [render_attrs app]; [right | left]; reflexivity.
+Qed.
+
+Lemma render_attrs_length more : (List.length more <= List.length (render_attrs more))%nat.
+Proof.
+  induction more as [|i more IH]; [apply le_n|]. cbn [render_attrs List.length app]. rewrite app_length. lia.
+Qed.
+
+Lemma kw_head_not_paren a : known "AttrMacro" a = true ->
+  exists c w, kw_of "AttrMacro" a = c :: w /\ c <> 40.
+Proof.
+  unfold known, kw_of. destruct (kw_lookup ref_kw "AttrMacro" a) as [s|] eqn:E; [|discriminate]. intros _.
+  apply lookup_macro in E. cbn in E.
+  destruct E as [E | [E | [E | []]]]; injection E as _ <-; cbn; eexists _, _; (split; [reflexivity | discriminate]).
+Qed.
+
+Lemma read_items_render it r :
+  match it with IMacro m => known "AttrMacro" m | IAttrs a more => known "Attribute" a && forallb (known "Attribute") more end = true ->
+  word_end r -> read_items (render_items it ++ r) = Some (it, r).
+Proof.
+  destruct it as [m | a more]; cbn [render_items]; intros H Hr.
+  - destruct (kw_head_not_paren m H) as (c & w & E & Hc).
+    unfold read_items. rewrite E. cbn [app]. apply N.eqb_neq in Hc. rewrite Hc.
+    change (c :: w ++ r) with ((c :: w) ++ r). rewrite <- E. rewrite (read_kw_macro m r H Hr). reflexivity.
+  - apply andb_true_iff in H. destruct H as [Ha Hm]. norm_app. unfold read_items. rewrite N.eqb_refl.
+    rw (read_kw_attr a (render_attrs more ++ 41 :: r) Ha).
+    + change (41 :: r) with ([41] ++ r). rewrite (read_attrs_render more _ r Hm); [reflexivity|].
+      rewrite app_length. pose proof (render_attrs_length more). change byte with N in *. lia.
+    + destruct more; cbn [render_attrs app]; [right | left]; reflexivity.
+Qed.
+
+Lemma strip_app p l : strip p (p ++ l) = Some l.
+Proof. induction p as [|x p IH]; [reflexivity|]. cbn [app strip]. rewrite N.eqb_refl. exact IH. Qed.
+
+Lemma read_cs_render cs : read_cs (render_cs cs) = Some cs.
+Proof.
+  destruct cs as [n|]; [|reflexivity]. cbn [render_cs]. unfold read_cs.
+  assert (Hs : strip (bs " (CHANGEDSINCE ") (bs " (CHANGEDSINCE " ++ to_dec n ++ [41]) = Some (to_dec n ++ [41])) by apply strip_app.
+  destruct (bs " (CHANGEDSINCE " ++ to_dec n ++ [41]) eqn:E; [discriminate E|]. rewrite Hs.
+  rewrite (read_number_to_dec n [41]) by reflexivity. reflexivity.
+Qed.
+
+Lemma render_cs_word_end cs : word_end (render_cs cs).
+Proof. destruct cs; [left; reflexivity | exact I]. Qed.
+
+Theorem read_fetch_render r : req_ok r = true -> read_fetch (render_fetch r) = Some r.
+Proof.
+  destruct r as [uid f more it cs]. unfold req_ok, render_fetch. cbn [fr_uid fr_first fr_more fr_items fr_cs].
+  intro H. apply andb_true_iff in H. destruct H as [H Hit]. apply andb_true_iff in H. destruct H as [Hf Hm].
+  set (tail := render_item f ++ render_more more ++ [32] ++ render_items it ++ render_cs cs).
+  assert (Hi : read_item tail = Some (f, render_more more ++ [32] ++ render_items it ++ render_cs cs)).
+  { unfold tail. apply read_item_render. apply render_more_head. repeat split; discriminate. }
+  assert (Hmore : read_more (S (List.length (render_more more ++ [32] ++ render_items it ++ render_cs cs)))
+                            (render_more more ++ [32] ++ render_items it ++ render_cs cs)
+                  = Some (more, [32] ++ render_items it ++ render_cs cs)).
+  { apply read_more_render; [repeat split; discriminate|]. rewrite app_length. pose proof (render_more_length more). change byte with N in *. lia. }
+  assert (Hits : read_items (render_items it ++ render_cs cs) = Some (it, render_cs cs))
+    by (apply read_items_render; [exact Hit | apply render_cs_word_end]).
+  assert (Hend : forall u, read_fetch (verb u ++ tail) = Some (mk_fetch_req u f more it cs)).
+  { intro u. unfold read_fetch.
+    assert (Hu : (match strip (bs "UID ") (verb u ++ tail) with Some r => (true, r) | None => (false, verb u ++ tail) end)
+                 = (u, bs "FETCH " ++ tail)).
+    { destruct u; cbn [verb].
+      - change (bs "UID FETCH ") with (bs "UID " ++ bs "FETCH "). rewrite <- app_assoc, strip_app. reflexivity.
+      - reflexivity. }
+    rewrite Hu, strip_app, Hi, Hmore. cbn [app]. rewrite N.eqb_refl, Hits, read_cs_render. reflexivity. }
+  exact (Hend uid).
+Qed.
+
+(* consequently the rendering is injective on well-formed requests: different requests give different lines *)
+Corollary render_fetch_injective r1 r2 : req_ok r1 = true -> req_ok r2 = true -> render_fetch r1 = render_fetch r2 -> r1 = r2.
+Proof.
+  intros H1 H2 E. pose proof (read_fetch_render r1 H1) as A. rewrite E, (read_fetch_render r2 H2) in A. injection A as ->. reflexivity.
+Qed.
+
+(* ---------------------------------------------------------------- SELECT / EXAMINE / LOGIN / LIST / CHECK / CLOSE *)
+Definition of_bres (r : bres) (next : string) : option (list byte * string) :=
+  match r with BOk a => Some (a, next) | _ => None end.
+
+Lemma emit_quoted1 (v : string) x m :
+  emit ref_kw [(x, AStr m)] [PLit v; PQuoted x; PLit """"] =
+  match quoted_string m with QOk q => Some (bs v ++ q ++ [34]) | _ => None end.
+Proof.
+  cbn [emit eval_piece assoc]. rewrite String.eqb_refl.
+  destruct (quoted_string m); try reflexivity.
+Qed.
+
+Theorem simple_commands_exact :
+  run_chain ref_machine "check" [] [] = Some (bs "CHECK", "None"%string) /\
+  run_chain ref_machine "close" [] [] = Some (bs "CLOSE", "Some(State::Authenticated)"%string).
+Proof. split; reflexivity. Qed.
+
+Theorem login_list_exact u p :
+  run_chain ref_machine "login" [AStr u; AStr p] [] = of_bres (login u p) "Some(State::Authenticated)" /\
+  run_chain ref_machine "list" [AStr u; AStr p] [] = of_bres (list_cmd u p) "None".
+Proof.
+  split; unfold run_chain, start, login, list_cmd, build2, with_q; cbn -[quoted_string app];
+    destruct (quoted_string u); try reflexivity; destruct (quoted_string p); try reflexivity;
+    cbn [of_bres]; unfold dq; rewrite ?app_nil_r; cbn [app]; norm_app; reflexivity.
+Qed.
+
+Lemma no_trans_from_params meth : find_trans "SelectCommand" "Params" meth ref_trans = None.
+Proof. reflexivity. Qed.
+
+Definition select_spec (verb : list byte) (m : list byte) (calls : list (string * list carg)) : option (list byte * string) :=
+  match quoted_string m with
+  | QOk q =>
+    match calls with
+    | [] => Some (verb ++ 32 :: dq q, "Some(State::Selected)"%string)
+    | [(meth, [])] => if String.eqb meth "cond_store" then Some (verb ++ 32 :: dq q ++ bs " (CONDSTORE)", "Some(State::Selected)"%string) else None
+    | _ => None
+    end
+  | _ => None
+  end.
+
+Lemma select_like (name : string) (verb : string) m calls :
+  find_ctor name ref_ctors = Some (mk_ctor name [("mailbox"%string, "&str"%string)] [PLit (verb ++ " """)%string; PQuoted "mailbox"; PLit """"] "SelectCommand" "NoParams" "") ->
+  bs (verb ++ " """)%string = bs verb ++ [32; 34] ->
+  run_chain ref_machine name [AStr m] calls = select_spec (bs verb) m calls.
+Proof.
+  intros Hc Hv. unfold run_chain, start. cbn [ref_machine m_ctors]. rewrite Hc.
+  cbn [c_params c_pieces c_ty c_state c_next bind_params m_kw]. rewrite emit_quoted1. unfold select_spec.
+  destruct (quoted_string m) as [q| |]; try reflexivity.
+  cbn [String.eqb Ascii.eqb Bool.eqb]. rewrite Hv.
+  destruct calls as [|[meth args] cs].
+  - cbn -[app]. rewrite app_nil_r. unfold dq. norm_app. reflexivity.
+  - cbn [run_calls step_call fst snd ref_machine m_trans].
+    assert (Hf : find_trans "SelectCommand" "NoParams" meth ref_trans =
+                 if String.eqb meth "cond_store" then Some (mk_trans "SelectCommand" "NoParams" "cond_store" [] [PLit " (CONDSTORE"] "Params") else None).
+    { cbn [find_trans ref_trans t_ty t_from t_meth]. cbn [String.eqb Ascii.eqb Bool.eqb andb]. destruct (String.eqb meth "cond_store"); reflexivity. }
+    rewrite Hf. destruct (String.eqb meth "cond_store") eqn:Em.
+    + cbn [t_params t_pieces t_to]. destruct args as [|a args]; [|destruct cs; reflexivity].
+      cbn [bind_params m_kw emit eval_piece]. 
+      destruct cs as [|[meth2 args2] cs].
+      * cbn -[app]. unfold dq. norm_app. rewrite ?app_nil_r. reflexivity.
+      * cbn [run_calls step_call fst snd ref_machine m_trans]. rewrite no_trans_from_params. reflexivity.
+    + destruct args; [|destruct cs]; try reflexivity. destruct cs; reflexivity.
+Qed.
+
+Theorem select_chain_exact m calls :
+  run_chain ref_machine "select" [AStr m] calls = select_spec (bs "SELECT") m calls /\
+  run_chain ref_machine "examine" [AStr m] calls = select_spec (bs "EXAMINE") m calls.
+Proof. split; apply select_like; reflexivity. Qed.
+
+(* without cond_store the machine agrees with the C10 model of select / examine *)
+Corollary select_plain_is_builders m :
+  run_chain ref_machine "select" [AStr m] [] = of_bres (select m) "Some(State::Selected)" /\
+  run_chain ref_machine "examine" [AStr m] [] = of_bres (examine m) "Some(State::Selected)".
+Proof.
+  destruct (select_chain_exact m []) as [A B]. rewrite A, B. unfold select_spec, select, examine, build1, with_q.
+  destruct (quoted_string m); split; reflexivity.
+Qed.
+
+(* the quoted form of an ASCII text without CR / LF / NUL is an RFC 3501 `quoted` string *)
+Lemma quoted_body_escape s : forallb is_text_char s = true -> quoted_body (escape s).
+Proof.
+  induction s as [|c s IH]; intro H; [apply qb_nil|].
+  cbn [forallb] in H. apply andb_true_iff in H. destruct H as [Hc Hs].
+  unfold escape. cbn [flat_map]. fold (escape s). destruct (is_qspecial c) eqn:E.
+  - cbn [app]. apply qb_esc; [exact E | exact (IH Hs)].
+  - cbn [app]. apply qb_plain; [exact Hc | exact E | exact (IH Hs)].
+Qed.
+
+Lemma text_char_no_crlf s : forallb is_text_char s = true -> ~ In 13 s /\ ~ In 10 s.
+Proof.
+  intro H. rewrite forallb_forall in H. split; intro Hin; specialize (H _ Hin); vm_compute in H; discriminate.
+Qed.
+
+Lemma text_char_utf8 : forall s q, forallb is_text_char s = true -> (q = U0) -> utf8_run q s = U0.
+Proof.
+  induction s as [|c s IH]; intros q H ->; [reflexivity|].
+  cbn [forallb] in H. apply andb_true_iff in H. destruct H as [Hc Hs].
+  unfold utf8_run. cbn [fold_left]. fold (utf8_run (utf8_step U0 c) s). apply IH; [exact Hs|].
+  unfold is_text_char in Hc. apply andb_true_iff in Hc. destruct Hc as [Hc _]. apply andb_true_iff in Hc. destruct Hc as [Hc _].
+  apply andb_true_iff in Hc. destruct Hc as [_ Hc]. unfold utf8_step. rewrite Hc. reflexivity.
+Qed.
+
+Lemma quoted_of_text s : forallb is_text_char s = true -> exists q, quoted_string s = QOk q /\ quoted (dq q).
+Proof.
+  intro H. destruct (text_char_no_crlf s H) as [H13 H10].
+  assert (Hu : utf8_valid s = true) by (unfold utf8_valid; rewrite (text_char_utf8 s U0 H eq_refl); reflexivity).
+  exists (escape s). split; [exact (quoted_string_ok_lemma s Hu H13 H10)|]. unfold dq.
+  change (34 :: escape s ++ [34]) with ([34] ++ escape s ++ [34]). apply q_intro, quoted_body_escape, H.
+Qed.
+
+Theorem select_chain_grammatical verb m calls out next :
+  verb = bs "SELECT" \/ verb = bs "EXAMINE" -> forallb is_text_char m = true ->
+  select_spec verb m calls = Some (out, next) -> select_cmd out.
+Proof.
+  intros Hv Hm. destruct (quoted_of_text m Hm) as (q & Hq & Hquoted). unfold select_spec. rewrite Hq.
+  destruct calls as [|[meth args] cs].
+  - intro H. injection H as <- _. exact (sel_plain verb (dq q) Hv Hquoted).
+  - destruct args; [|discriminate]. destruct cs; [|discriminate]. destruct (String.eqb meth "cond_store"); [|discriminate].
+    intro H. injection H as <- _. exact (sel_param verb (dq q) Hv Hquoted).
+Qed.
+
+Theorem login_list_grammatical verb a b out :
+  forallb is_text_char a = true -> forallb is_text_char b = true ->
+  build2 verb a b = BOk out -> two_string_cmd verb out.
+Proof.
+  intros Ha Hb. destruct (quoted_of_text a Ha) as (qa & Hqa & HA). destruct (quoted_of_text b Hb) as (qb & Hqb & HB).
+  unfold build2, with_q. rewrite Hqa, Hqb. intro H. injection H as <-.
+  exact (ts_intro verb (dq qa) (dq qb) HA HB).
 Qed.
